@@ -33,12 +33,17 @@ impl Styles {
         None
     }
     fn get_num_fmt_index(&self, format_code: &str) -> Option<i32> {
-        if let Some(index) = get_default_num_fmt_id(format_code) {
-            return Some(index);
-        }
+        // A workbook-defined `numFmt` takes precedence over the built-in table
+        // (see `get_num_fmt`), so a built-in id is only usable if the workbook
+        // does not give that id another meaning.
         for item in self.num_fmts.iter() {
             if item.format_code == format_code {
                 return Some(item.num_fmt_id);
+            }
+        }
+        if let Some(index) = get_default_num_fmt_id(format_code) {
+            if !self.num_fmts.iter().any(|item| item.num_fmt_id == index) {
+                return Some(index);
             }
         }
         None
